@@ -82,7 +82,10 @@ func runC20(c *Ctx) {
 		seen := map[int]int{}
 		narrowed := false
 		r := &esp.Rule{Name: "C20.R1"}
-		r.Relevant = func(f *ssa.Function) bool { return f.Parent() == sign } // local closures (checksum helper)
+		// local closures (checksum helper) and helpers of the package the guards may be factored into
+		r.Relevant = func(f *ssa.Function) bool {
+			return f.Parent() == sign || (load.RelPkg(f) == "keys/gcpkms" && f != sign)
+		}
 		r.Flag = func(v ssa.Value) (int, bool) {
 			if kmsGetter(v, "AsymmetricSignRequest", "GetDigestCrc32C") {
 				return 0, true
@@ -93,7 +96,7 @@ func runC20(c *Ctx) {
 			return 0, false
 		}
 		r.Match = func(in ssa.Instruction) []esp.Ev {
-			if in.Parent() != sign {
+			if in.Parent() == nil || (in.Parent() != sign && in.Parent().Parent() != sign && load.RelPkg(in.Parent()) != "keys/gcpkms") {
 				return nil
 			}
 			switch v := in.(type) {
